@@ -294,7 +294,15 @@ impl Drv {
                 let mut r = Rng::new(*control as u64 ^ 0xB0);
                 let rt = self.any_id(&mut r);
                 let ft = self.any_id(&mut r);
-                let fid = if *explicit_id { Some(self.fresh_untracked()) } else { None };
+                // control bits 4-5 both set (only C12 generates them): the explicit id repeats an earlier function's id
+                // (the builder does not validate ids; selection and structure must not be confused by it)
+                let fid = if *explicit_id && *control & 0x30 == 0x30 && !self.function_ids.is_empty() {
+                    Some(self.function_ids[(*control >> 6) as usize % self.function_ids.len()])
+                } else if *explicit_id {
+                    Some(self.fresh_untracked())
+                } else {
+                    None
+                };
                 rep.explicit_rid = fid;
                 let ctl = spirv::FunctionControl::from_bits(*control & 0xF).unwrap_or(spirv::FunctionControl::NONE);
                 rep.what = format!("begin_function({}, {:?}, {:?}, {})", rt, fid, ctl, ft);
